@@ -113,10 +113,21 @@ def as_arg(tb, how):
         return tuple(np.float64(float(v)) for v in tb)
     if how == "ndarray_int32":
         return np.array([int(v) for v in tb], dtype=np.int32)
+    if how == "series_labeled":
+        import pandas as pd
+        return pd.Series([float(v) for v in tb], index=["x0", "y0", "x1", "y1"])          # a row of a bounds table
+    if how == "series_slice":
+        import pandas as pd
+        return pd.Series([-1.0, -2.0] + [float(v) for v in tb] + [9.0])[2:6]                 # labels 2..5
+    if how == "series_permuted_labels":
+        import pandas as pd
+        return pd.Series([float(v) for v in tb], index=[2, 3, 0, 1])                        # positions, not labels, give the order
     raise ValueError(how)
 
 
 def snapshot(arg):
+    if hasattr(arg, "index") and hasattr(arg, "values"):
+        return ("series", list(arg.index), arg.values.tolist())
     if isinstance(arg, np.ndarray):
         return ("nd", arg.dtype.str, arg.tolist())
     return (type(arg).__name__, [repr(v) for v in arg])
@@ -136,7 +147,8 @@ def check_scene(col, kind, tb, plist, seed):
     arr_rev = L.make_array(kind, felems[::-1], "float64")
     arr_with_inert = L.make_array(kind, [None] + felems + [None], "float64")
     integral = all(float(v).is_integer() for v in tb)
-    hows = ["tuple", "list", "ndarray_float", "tuple_np_float64"] + (["ndarray_int", "list_int", "ndarray_int32"] if integral else [])
+    hows = ["tuple", "list", "ndarray_float", "tuple_np_float64", "series_labeled", "series_slice", "series_permuted_labels"] + \
+        (["ndarray_int", "list_int", "ndarray_int32"] if integral else [])
     if all(float(np.float32(float(v))) == float(v) for v in tb):
         # the same extent spelled with narrower number types
         hows += ["ndarray_float32", "list_np_float32"]
@@ -168,6 +180,19 @@ def check_scene(col, kind, tb, plist, seed):
                 col.violation("out_of_range", case, "distance outside [0, 4^p)")
             col.count("nontrivial", len(set(exp.tolist())))
             if hi_ == 0:
+                # the arrays an object hands out are the caller's: overwriting them changes no later answer
+                try:
+                    aw = L.make_array(kind, felems, "float64")
+                    for name in ("bounds", "bounds_x", "bounds_y", "x", "y"):
+                        v = getattr(aw, name, None)
+                        if isinstance(v, np.ndarray) and v.flags.writeable and v.size:
+                            v[...] = v + 12345.0
+                    gw = np.asarray(aw.hilbert_distance(total_bounds=as_arg(tb, "tuple"), p=p))
+                    col.count("evaluations", len(elems))
+                    if (gw != got).any():
+                        col.violation("aliased_bounds", case, "after writing into the arrays returned by bounds / x / y the distances changed")
+                except Exception as ex:
+                    col.violation("aliased_bounds.raises", case, f"{type(ex).__name__}: {str(ex)[:200]}")
                 # independence from position / neighbours / slicing / inert rows
                 arg2 = as_arg(tb, "tuple")
                 try:
